@@ -110,10 +110,14 @@ def answer_text(case, item):
         out.append(("SENT: %s sentence\n" if nres else "SKIP: %s sentence\n") % tok)
         for r in range(nres):
             out.append("[ %s %d%s ] ; (d %s %d)\n" % (tok, r, big(ex), tok, r))
+        if ex.get("tailnote"):
+            out.append("NOTE: %s afterthought\n" % tok)
         out.append("\n\n")
     elif front == "transferer":
         for r in range(nres):
             out.append("[ %s %d%s ]\n" % (tok, r, big(ex)))
+        if ex.get("tailnote"):
+            out.append("NOTE: %s afterthought\n" % tok)
         out.append("\n")
     else:
         st, sm = case.get("show", [False, False])
@@ -163,6 +167,32 @@ def expected_results(case, item):
                 d["mrs"] = "[ %s %d ]" % (tok, r)
         res.append(d)
     return res
+
+
+def expected_partial(case, item, wrote):
+    """default protocol: the results that consist of COMPLETE lines of what was written (naive restatement)"""
+    front = case["front"]
+    tok, ex = item["tok"], item.get("ex", {})
+    full = expected_results(case, item)
+    out = []
+    for r, d in enumerate(full):
+        if front == "parser":
+            ok = ("[ %s %d%s ] ; (d %s %d)\n" % (tok, r, big(ex), tok, r)) in wrote
+            if ok:
+                out.append(d)
+        elif front == "transferer":
+            if ("[ %s %d%s ]\n" % (tok, r, big(ex))) in wrote:
+                out.append(d)
+        else:
+            if ("%s %d surf%s\n" % (tok, r, big(ex))) not in wrote:
+                break
+            e = {"SENT": d["SENT"]}
+            if "derivation" in d and ("DTREE = (d %s %d)\n" % (tok, r)) in wrote:
+                e["derivation"] = d["derivation"]
+            if "mrs" in d and ("MRS = [ %s %d ]\n" % (tok, r)) in wrote:
+                e["mrs"] = d["mrs"]
+            out.append(e)
+    return out
 
 
 # --------------------------------------------------------------------------------------------
@@ -229,6 +259,8 @@ def tokenize(r, reg):
 def line_attrs(s, reg, tsdb):
     r = s.rstrip()
     d = {"cls": "content"}
+    if not s.endswith("\n"):
+        d["nl"] = False
     if s == "\n":
         d["blank"] = True
     if "NOTE: tsdb parse: " in s:
@@ -596,7 +628,7 @@ class C19(Check):
 
     # ---- pins: the source constants the model (and the oracle) hand-code an equivalent of
     MESSAGE_PREFIXES = ("cannot ", "Process closed", "ACE process", "Attempt", "Could not", "Failed to",
-                        "Possible MRS", "interact() argument", "ACE cleanup", "Invalid S-Expression")
+                        "Possible MRS", "interact() argument", "ACE cleanup", "Invalid S-Expression", "Discarding ")
 
     def pins(self, gen_tsdb_termini):
         import types
@@ -915,8 +947,22 @@ class C19(Check):
             elif wrote.strip() == "":
                 if o["results"] != []:
                     fail("a failed item yields an empty result", step=idx, got=o["results"])
+            elif not (case["tsdb"] and front != "transferer"):
+                # default protocol, died in the middle: only COMPLETE lines written for this input count
+                want = expected_partial(case, it, wrote)
+                if o["results"] != want:
+                    fail("results are built from complete lines the processor wrote for this input only",
+                         step=idx, got=o["results"], want=want)
+                for n_ in o["notes"]:
+                    if ("NOTE: %s\n" % n_) not in wrote:
+                        fail("notes are complete lines the processor wrote for this input", step=idx, note=n_)
+                if o["surface"] is not None and ("SENT: %s\n" % o["surface"]) not in wrote \
+                        and ("SKIP: %s\n" % o["surface"]) not in wrote:
+                    fail("the surface is a complete line the processor wrote for this input", step=idx,
+                         surface=o["surface"])
             else:
-                # died in the middle: whatever is reported stems from what was written for this input
+                # tsdb protocol, died in the middle: the tolerant decoding may use the fragment, but whatever is
+                # reported stems from what was written for this input
                 flat = []
 
                 def leaves(v):
@@ -1082,7 +1128,7 @@ class C19(Check):
             r = rng.random()
             ex = {}
             for key, p in (("note", .2), ("warning", .1), ("error", .1), ("pinput", .3), ("pre", .15), ("post", .2),
-                           ("genmrs", .3), ("wsline", .1)):
+                           ("genmrs", .3), ("wsline", .1), ("tailnote", .2)):
                 if rng.random() < p:
                     ex[key] = True
             if rng.random() < 0.3:
@@ -1235,6 +1281,15 @@ def regression_cases():
             it2 = mk_item(1, "generator", "die", nres=2, die=die_spec(), cut=cut, sync=True)
             cs.append(case("F48-gen-lookahead", "generator", False, [mk_item(0, "generator"), it2,
                                                                      mk_item(2, "generator")], show))
+    # F54: a line cut short by the exit is not a result (default protocol)
+    for front in ("parser", "transferer", "generator"):
+        base = {"front": front, "tsdb": False, "show": [False, False]}
+        ex = {"tailnote": True} if front != "generator" else {}
+        full = answer_text(base, mk_item(1, front, "die", nres=1, ex=dict(ex)))
+        cuts = [full.index("NOTE:") + 2, 3, full.index("\n") + 4]
+        for cut in cuts:
+            it2 = mk_item(1, front, "die", nres=1, ex=dict(ex), die=die_spec(delay_exit=20), cut=cut, sync=True)
+            cs.append(case("F54-cut-line-as-result", front, False, [mk_item(0, front), it2, mk_item(2, front)]))
     for front, tsdb in FRONTS:
         cs.append(case("F18-F19-exit-unanswered", front, tsdb,
                        [mk_item(0, front), mk_item(1, front, "die", die=die_spec(delay_exit=30), cut=0, sync=True),
